@@ -212,6 +212,11 @@ func StressTrial(legName string, n int, seed int64, nats *NatsServer, maxCopies 
 					res.Witness = witness(nil)
 					return false
 				}
+				if d := LockDeadlock("lib/go.(*fRegistryImpl)"); d != "" {
+					res.Stall = "registry lock deadlock: " + d
+					res.Witness = witness(nil)
+					return false
+				}
 				t.Reset(3 * time.Second)
 			case <-deadline:
 				res.Inconclusive = what + " within the watchdog, and no blocked delivery could be established"
